@@ -296,6 +296,18 @@ func onceCase(hseed uint64) {
 	if done > 1 {
 		addFail("once-two-results", "the function completed %d times: %v", done, trace)
 	}
+	// the same execution on the slot machine generated from once.go: at the end the
+	// model's slot must be what the hook sees
+	{
+		slotState := "taken"
+		if done > 0 {
+			slotState = "closed"
+		} else if o.VerifSlotFree() {
+			slotState = "free"
+		}
+		run.Case(run.NewID(), fmt.Sprintf("OS %d %s", len(trace), strings.Join(trace, " ")), "ACCEPT "+slotState)
+		run.Count("once-slot/" + slotState)
+	}
 	// slot bookkeeping at the quiescent point: every caller has returned, so the slot
 	// is available again or a result is published
 	if done == 0 && !o.VerifSlotFree() {
